@@ -113,7 +113,7 @@ Proof. vm_compute; reflexivity. Qed.
 
 (* ---- pdb --------------------------------------------------------------------------------------- *)
 Definition ex_pdb caught slp :=
-  parse_pdb_gen unit split_sp blank_sp ex_float slp (fun _ _ _ => Ok (true, false)) (fun _ _ => Ok tt) (fun _ _ => Ok tt)
+  parse_pdb_gen unit split_sp blank_sp strip_sp ex_float slp (fun _ _ _ => Ok (true, false)) (fun _ _ => Ok tt) (fun _ _ => Ok tt)
                 caught ReraiseFormat.
 Definition pdb_atom := "ATOM      1  N   ARG     1       0.735   2.219   1.389  1.00  0.00".
 Definition pdb_cryst := "CRYST1    1.000    1.000    1.000  90.00  90.00  90.00".
